@@ -190,7 +190,9 @@ structure SpecSt where
   answered : List String := []
   subs : List (String × Key) := []
   blind : List Key := []          -- keys holding a temporary (not applied) value: reads are outside C09
-  nblind : List Key := []         -- keys changed by import/tmp: notification duties (C10) are unknown
+  nblind : List Key := []         -- keys changed by import: notification duties (C10) are unknown
+  tmpv : List (Key × String) := []  -- keys holding a temporary value (SetTmpValue on the node that forwarded a publish):
+                                  -- comparisons use it, nobody was notified of it; the committed publish must do that
 
 def evTokens (ans : List String) : List String :=
   match ans.find? (·.startsWith "ev=[") with
@@ -204,6 +206,10 @@ def evTokens (ans : List String) : List String :=
 def curContent (s : SpecSt) (k : Key) : String := match AL.get? s.vals k with | some v => v.content | none => ""
 
 def sortedKeys (ks : List Key) : List Key := sortKeys ks
+
+/-- what a comparison sees: the temporary value if there is one, else the applied one -/
+def effContent (s : SpecSt) (k : Key) : String :=
+  match AL.get? s.tmpv k with | some c => c | none => curContent s k
 
 /-- after a change of `k`: who must have been told in this op's events -/
 def requireNotified (s : SpecSt) (k : Key) (evs : List String) : Option String :=
@@ -221,6 +227,14 @@ def requireNotified (s : SpecSt) (k : Key) (evs : List String) : Option String :
         match clients.find? (fun c => !got.contains c) with
         | some c => some s!"subscriber {c} of {showKey k} missing from the notification"
         | none => none
+
+/-- a committed publish of `k` with content `c` on a node that held a temporary value for `k`: every long-poll that
+waits on something else than `c` must be answered now (the temporary value was stored without telling anybody) -/
+def requireNotifiedTmp (s : SpecSt) (k : Key) (c : String) (evs : List String) : Option String :=
+  let ws := s.waits.filter fun w => w.items.any (fun it => it.1 == k && it.2 != c) && !s.answered.contains w.label
+  match ws.find? (fun w => !(evs.any fun e => e.startsWith (w.label ++ ":DATA:") || e == w.label ++ ":NULL")) with
+  | some w => some s!"long-poll {w.label} holds a stale md5 of {showKey k} (a temporary value was stored meanwhile) and was not answered when the publish was applied"
+  | none => none
 
 def markAnswered (s : SpecSt) (evs : List String) : SpecSt × Option String :=
   let labs := evs.filterMap fun e =>
@@ -249,19 +263,23 @@ def specOp (s : SpecSt) (op ans : List String) : SpecSt × String :=
       else hist0
     let ty := match optS (kv rest "type") with | some t => some (normType t) | none => old.bind (·.ctype)
     let de := match optS (kv rest "desc") with | some d => some d | none => old.bind (·.desc)
-    let r := if changed && !s.nblind.contains key then requireNotified s key evs else none
-    ({ s with vals := AL.set s.vals key ⟨c, ty, de, hist1⟩, blind := s.blind.erase key, nblind := s.nblind.erase key }, verdict r)
+    let r := if (AL.get? s.tmpv key).isSome then requireNotifiedTmp s key c evs
+      else if changed && !s.nblind.contains key then requireNotified s key evs else none
+    ({ s with vals := AL.set s.vals key ⟨c, ty, de, hist1⟩, blind := s.blind.erase key, nblind := s.nblind.erase key,
+              tmpv := AL.erase s.tmpv key }, verdict r)
   | ["remove", k] =>
     let key := parseKey k
     let changed := (AL.get? s.vals key).isSome
     let r := if changed && !s.nblind.contains key then requireNotified s key evs else none
-    ({ s with vals := AL.erase s.vals key, blind := s.blind.erase key, nblind := s.nblind.erase key }, verdict r)
+    let r := if (AL.get? s.tmpv key).isSome then none else r
+    ({ s with vals := AL.erase s.vals key, blind := s.blind.erase key, nblind := s.nblind.erase key, tmpv := AL.erase s.tmpv key }, verdict r)
   | "full" :: k :: rest =>
     let key := parseKey k
     let hist := (parseHist (kv rest "hist")).map fun h => (h.id, h.content, h.time)
     ({ s with vals := AL.set s.vals key ⟨contentOf (kv rest "c"), (optS (kv rest "type")).map normType, optS (kv rest "desc"), hist⟩,
-              blind := s.blind.erase key, nblind := key :: s.nblind }, "-")
-  | "tmp" :: k :: _ => ({ s with blind := parseKey k :: s.blind, nblind := parseKey k :: s.nblind }, "-")
+              blind := s.blind.erase key, nblind := key :: s.nblind, tmpv := AL.erase s.tmpv key }, "-")
+  | "tmp" :: k :: rest =>
+    ({ s with blind := parseKey k :: s.blind, tmpv := AL.set s.tmpv (parseKey k) (contentOf (kv rest "c")) }, "-")
   | ["get", k] =>
     let key := parseKey k
     if s.blind.contains key then (s, "-") else
@@ -294,8 +312,8 @@ def specOp (s : SpecSt) (op ans : List String) : SpecSt × String :=
     | _, _ => (s, "-")
   | "listen" :: label :: rest =>
     let items := parseItems rest
-    let stale := (items.filter fun it => curContent s it.1 != it.2).map (·.1)
-    let anyBlind := items.any fun it => s.blind.contains it.1
+    let stale := (items.filter fun it => effContent s it.1 != it.2).map (·.1)
+    let anyBlind := items.any fun it => s.blind.contains it.1 && (AL.get? s.tmpv it.1).isNone
     let dl := kv rest "dl"
     if anyBlind then ({ s with answered := s.answered ++ [label] }, "-")
     else if !stale.isEmpty || dl == "zero" then
